@@ -696,7 +696,7 @@ func c02Partitions(p *Prog, l *Ledger, locks *LockInfo) {
 				return len(bad) < 3
 			}
 			last := len(pa.Blocks) - 1
-			binObj := pa.Resolve(p.CallOf(binCalls[0]).Recv, last)
+			binObj := pa.Resolve(p.CallOf(binCalls[0]).Obj(), last)
 			// token = NewAcquiredStrategyToken(_, releaseFn(binObj'))
 			tokCall, ok := strip(rv[0], false).(*ssa.Call)
 			if !ok {
@@ -735,7 +735,7 @@ func c02Partitions(p *Prog, l *Ledger, locks *LockInfo) {
 					return a != nil && b != nil && norm(a) == norm(b)
 				}
 				if root == nil || !sameObj(pa.Resolve(root, last), binObj) {
-					bad = append(bad, fmt.Sprintf("%s: the release function is bound to a different partition than the one charged (%s)", p.At(tokCall), valueString(root)))
+					bad = append(bad, fmt.Sprintf("%s: the release function is bound to a different partition than the one charged (%s; on this path %s, charged %s)", p.At(tokCall), valueString(root), valueString(pa.Resolve(root, last)), valueString(binObj)))
 				}
 			}
 			return len(bad) < 3
@@ -1135,7 +1135,15 @@ func c02ReleasedBins(p *Prog, fn *ssa.Function, fr *frame) []ssa.Value {
 		c := p.CallOf(call)
 		if c.Recv != nil && c.MethodName() == "Release" && (c.Iface != nil || (c.Static != nil && p.InPkg(c.Static, "strategy"))) {
 			ap := p.OuterAP(c.Recv, fr)
-			if len(ap.Sel) == 0 {
+			// a method promoted from an embedded struct is called on the embedded field of the same object
+			embeddedOnly := true
+			for _, f := range ap.Fields {
+				st := structOf(f.Type)
+				if f.Type == nil || st == nil || f.Index >= st.NumFields() || !st.Field(f.Index).Embedded() {
+					embeddedOnly = false
+				}
+			}
+			if embeddedOnly {
 				out = append(out, ap.Root)
 			} else {
 				out = append(out, nil)
